@@ -302,14 +302,12 @@ Proof.
 Qed.
 Print Assumptions C13_tables_agree_from.
 
-(** from_i128: the entries agree whenever the value is representable at the target width; for a one-limb
-    target and a value outside the i64 range the code truncates silently (reported defect class) *)
-Theorem C13_tables_agree_from_i128_partial : forall dbg lo hi t, is_word lo -> is_word hi ->
-  isp_fits (Z.to_nat t) (seval [lo; hi]) = true ->
+(** from_i128 / From<i128>: both entries panic (assertion) for a target of fewer than two limbs and agree otherwise *)
+Theorem C13_tables_agree_from_i128 : forall dbg lo hi t, is_word lo -> is_word hi ->
   run_op ops_intarith_model "sint.from_i128" dbg [[lo; hi]; [t]] = run_op ops_intarith_spec "sint.from_i128" dbg [[lo; hi]; [t]] /\
   run_op ops_intarith_model "sint.from_i128_trait" dbg [[lo; hi]; [t]] = run_op ops_intarith_spec "sint.from_i128_trait" dbg [[lo; hi]; [t]].
 Proof. exact tbl_from_i128. Qed.
-Print Assumptions C13_tables_agree_from_i128_partial.
+Print Assumptions C13_tables_agree_from_i128.
 
 Theorem C13_tables_agree_checked_expr : forall dbg a b c o1 o2 f shape,
   wf a -> wf b -> wf c -> length a = length b -> length a = length c ->
